@@ -151,6 +151,8 @@ Inductive mpc := MIdle | MHeld (i : nat).     (* holds c.mu; i = index of the ne
 
 Record member := mkMember {
   m_quiet  : bool;
+  m_failmod : nat;                      (* 0 = healthy; k > 0 = every k-th write to this member FAILS (returns an error) *)
+  m_writes : nat;                       (* writes attempted on this member so far *)
   m_joined : nat;                       (* ghost: how many messages had been accepted by the composite when it joined *)
   m_sink   : list (tid * msg)
 }.
@@ -166,8 +168,20 @@ Record mstate := mkM {
 Definition accepts (quiet : bool) (st : stream) : bool :=
   match st with SOut => negb quiet | SErr => true end.
 
+(* A member whose write fails records nothing — and THE LOOP GOES ON to the next member: the callers of
+   MultipleLogger.Log / MultipleWritersWithSource.Write (writer.go:37-46: n, _ = writer.Write(p)) ignore the error,
+   so stopping at the first failing member would silently starve every member behind it. *)
+Definition fails (mb : member) : bool :=
+  match m_failmod mb with
+  | O => false
+  | k => Nat.eqb (S (m_writes mb) mod k) 0
+  end.
+
 Definition deliver (mb : member) (t : tid) (st : stream) (x : msg) : member :=
-  if accepts (m_quiet mb) st then mkMember (m_quiet mb) (m_joined mb) (m_sink mb ++ [(t, x)]) else mb.
+  if accepts (m_quiet mb) st
+  then mkMember (m_quiet mb) (m_failmod mb) (S (m_writes mb)) (m_joined mb)
+                (if fails mb then m_sink mb else m_sink mb ++ [(t, x)])
+  else mb.
 
 Fixpoint update_nth {A} (i : nat) (f : A -> A) (l : list A) : list A :=
   match l, i with
@@ -193,7 +207,7 @@ Definition mstep (s : mstate) (t : tid) : option mstate :=
       else Some (mkM (upd (mprog s) t r) (upd (mpcs s) t MIdle) None (members s) (glog s))
   | MHeld _, MAppend q :: r =>
       Some (mkM (upd (mprog s) t r) (upd (mpcs s) t MIdle) None
-                (members s ++ [mkMember q (List.length (glog s)) []]) (glog s))
+                (members s ++ [mkMember q 0 0 (List.length (glog s)) []]) (glog s))
   | MHeld _, MSetSource :: r =>
       Some (mkM (upd (mprog s) t r) (upd (mpcs s) t MIdle) None (members s) (glog s))
   end.
@@ -204,8 +218,8 @@ Fixpoint mrun (s : mstate) (sched : list tid) : option mstate :=
   | t :: r => match mstep s t with Some s' => mrun s' r | None => None end
   end.
 
-Definition minit (quiets : list bool) (P : list (list mop)) : mstate :=
-  mkM (fun t => nth t P []) (fun _ => MIdle) None (map (fun q => mkMember q 0 []) quiets) [].
+Definition minit (specs : list (bool * nat)) (P : list (list mop)) : mstate :=     (* (quiet, failmod) per member *)
+  mkM (fun t => nth t P []) (fun _ => MIdle) None (map (fun q => mkMember (fst q) (snd q) 0 0 []) specs) [].
 
 (* what member mb must hold once the composite is quiescent: every accepted message since it joined, in order *)
 Definition expected_sink (mb : member) (g : list (tid * stream * msg)) : list (tid * msg) :=
@@ -398,7 +412,7 @@ Inductive case :=
 | CSink (P : list (list op)) (obs : list (tid * msg))
 (* composite: initial members (quiet?), programs, the order in which the FIRST member saw the messages (used as the
    schedule), and what every member held at the end, in member order *)
-| CMulti (quiets : list bool) (P : list (list mop)) (sched : list tid) (sinks : list (list (tid * msg)))
+| CMulti (quiets : list (bool * nat)) (P : list (list mop)) (sched : list tid) (sinks : list (list (tid * msg)))
 (* scripted ring run: size, script, what the reader took (in order) and the alerts (in order) *)
 | CRing (n : nat) (script : list sev) (taken : list msg) (alerts : list nat)
 (* concurrent ring run: size, what each producer sent, what reached the slow writer, the sum of the alerts *)
@@ -421,11 +435,20 @@ Definition check_case (c : case) : bool :=
           forallb (fun t => match mprog s t with [] => true | _ => false end) (seq 0 (List.length P)) &&
           Nat.eqb (List.length (members s)) (List.length sinks) &&
           forallb (fun ms => let (mb, obs) := (ms : member * list (tid * msg)) in
-                             (* same multiset and same per-producer order as the model's member *)
-                             is_merge (map snd obs)
-                                      (map (fun t => proj t (m_sink mb)) (seq 0 (List.length P))) &&
-                             Nat.eqb (List.length obs) (List.length (m_sink mb)) &&
-                             list_eqb tm_eqb (m_sink mb) (expected_sink mb (glog s)))
+                             match m_failmod mb with
+                             | O =>
+                               (* healthy member: same multiset and same per-producer order as the model's member,
+                                  which holds everything accepted since it joined — whatever the other members do *)
+                               is_merge (map snd obs)
+                                        (map (fun t => proj t (m_sink mb)) (seq 0 (List.length P))) &&
+                               Nat.eqb (List.length obs) (List.length (m_sink mb)) &&
+                               list_eqb tm_eqb (m_sink mb) (expected_sink mb (glog s))
+                             | _ =>
+                               (* failing member: which writes fail depends on the schedule; it holds a part of
+                                  what it was offered, nothing else, nothing twice *)
+                               is_submerge (map snd obs)
+                                           (map (fun t => proj t (expected_sink mb (glog s))) (seq 0 (List.length P)))
+                             end)
                   (combine (members s) sinks)
       | None => false
       end
